@@ -12,7 +12,8 @@ from ..world import Mismatch
 ID = "C01"
 LEVEL = "exploration"
 RULE = ("Hypothesis-generated programs: one root object of each of the 18 classes on an absent or "
-        "pre-populated resource; steps = take a child handle (getitem/get/setdefault/iter) or apply "
+        "pre-populated resource, for JSON classes under all four write configurations (write_concern "
+        "on/off x threading support on/off); steps = take a child handle (getitem/get/setdefault/iter) or apply "
         "any public mutator (arguments from the JSON value strategy, ~10% calls that must raise) at "
         "a root or retained nested handle of any depth; after every mutator the resource is read "
         "independently and compared with a plain dict/list model. Non-trivial = the program contains "
@@ -128,10 +129,13 @@ def _post(w):
             raise Mismatch("stray_files", files=stray)
 
 
-def _gen_step(dom):
+def _gen_step(dom, wc=False):
     def g(draw, w):
         if not w.handles:
-            return {"t": "new", "r": 0, "id": w.next_id()}
+            s = {"t": "new", "r": 0, "id": w.next_id()}
+            if wc and w.ci.backend == "json":
+                s["kw"] = {"write_concern": True}
+            return s
         c = draw(st.integers(0, 9))
         if c < 3:
             s = gen.draw_take(draw, w)
@@ -140,7 +144,7 @@ def _gen_step(dom):
         hi = gen.pick_handle(draw, w)
         if hi is None:
             return None
-        return gen.draw_mutator(draw, w, hi, dom, p_raise=1, tuples=True)
+        return gen.draw_mutator(draw, w, hi, dom, p_raise=1, tuples=True, p_inv=3)
     return g
 
 
@@ -169,10 +173,14 @@ def run_shard(spec, seed, tier, active):
     def one(data):
         draw = data.draw
         init = draw(st.one_of(st.just(ABSENT), dom.doc(ci.kind)))
-        w = wm.run_generated(ID, ci, [init], _gen_step(dom), draw, max_steps, post=_post)
+        # write configurations of the JSON backend: write_concern on/off x threading support on/off
+        wc = draw(st.booleans())
+        threading_off = ci.backend == "json" and draw(st.integers(0, 2)) == 0
+        w = wm.run_generated(ID, ci, [init], _gen_step(dom, wc), draw, max_steps, post=_post,
+                             threading_off=threading_off)
         nt = _nt(w)
         sample = {"class": ci.name, "initial": repr(init), "steps": w.log[:12]} if nt else None
-        cnt = {f"{ci.name}": 1}
+        cnt = {f"{ci.name}": 1, f"write_concern={wc}": 1, f"threading_off={threading_off}": 1}
         for (k, v) in w.events.items():
             if isinstance(k, tuple):
                 cnt[f"{k[1]}.{k[2]}"] = v
